@@ -479,6 +479,9 @@ func c13Linearizable(obs *c13Obs) (porcupine.CheckResult, int) {
 func genC13(rng *rand.Rand, concurrent bool) *c13Script {
 	sc := &c13Script{Concurrent: concurrent}
 	n := 5 + rng.IntN(26)
+	if !concurrent && rng.IntN(40) == 0 {
+		n = 400 + rng.IntN(400) // hundreds of subscriptions and removals on one connection
+	}
 	if concurrent {
 		sc.Workers = 1 + rng.IntN(4)
 		n = 8 + rng.IntN(20)
